@@ -442,7 +442,19 @@ def impl_survivor(case):
         wa.disarm()
         wb, mb, b = make(False)
         _call(loop, mb.set_state, 's%d' % state_int(a), b) if False else mb.set_state('s%d' % state_int(a), b)
-        cont_a = run(wa, a, case['history'][case['split']:])
+        if 'Locked' in cname:
+            # a different thread must be able to use the survivor: no lock / owner identity may be left behind
+            import threading
+            box = {}
+
+            def other():
+                box['r'] = run(wa, a, case['history'][case['split']:])
+            th = threading.Thread(target=other, daemon=True)
+            th.start()
+            th.join(8)
+            cont_a = box.get('r', 'another thread blocks forever on the survivor')
+        else:
+            cont_a = run(wa, a, case['history'][case['split']:])
         cont_b = run(wb, b, case['history'][case['split']:])
         extra = []
         if hasattr(ma, '_transition_queue'):
